@@ -3,6 +3,7 @@ package props
 import (
 	"fmt"
 	"sync"
+	"sync/atomic"
 
 	"github.com/koron-go/z80"
 	"github.com/koron-go/z80/internal/tinycpm"
@@ -24,6 +25,8 @@ type c10Case struct {
 
 // c10Owned collects reports of host-owned request objects found modified.
 var c10Owned sync.Map
+
+var reattached atomic.Int64
 
 func c10Make(seed uint64, idx int) *c10Case {
 	r := mon.NewRng(mon.Hash(seed, uint64(idx), 0xC10))
@@ -162,6 +165,40 @@ func (cs *c10Case) runDigests() []uint64 {
 	return out
 }
 
+// runDigestsSwapping is runDigests with the host replacing the memory OBJECT by an
+// equal one (same bytes, same callbacks) every few Steps - bank switching to a shadow
+// copy, restoring a snapshot into a new object.  The outcome depends only on the bytes
+// memory returns, so the digest chain must be the one of the undisturbed run.
+func (cs *c10Case) runDigestsSwapping(every int) []uint64 {
+	m := cs.boot()
+	var out []uint64
+	h := uint64(0)
+	for i := 0; i < c10MaxSteps; i++ {
+		if i > 0 && i%every == 0 {
+			nm := &mon.Mem{}
+			nm.Data = m.mem.Data
+			nm.Count = m.mem.Count
+			nm.Logging = true
+			nm.Hook = m.mem.Hook
+			// the abandoned object must not be touched any more: poison it
+			for a := range m.mem.Data {
+				m.mem.Data[a] ^= 0xff
+			}
+			m.mem.Hook = func(*mon.Mem, mon.Access) { panic("access to a memory object that is no longer attached to the CPU") }
+			m.mem = nm
+			m.cpu.Memory = nm
+		}
+		h = m.stepDigest(h)
+		out = append(out, h)
+		if m.cpu.HALT && m.cpu.Interrupt == nil && m.cpu.PC == cs.P.HaltAddr {
+			break
+		}
+	}
+	return out
+}
+
+type c10Fault struct{}
+
 func copyIntr(it *z80.Interrupt) *z80.Interrupt {
 	if it == nil {
 		return nil
@@ -210,7 +247,7 @@ func runC10(c *Ctx) {
 	nprog := c.Pick(100, 2000)
 	rounds := c.Pick(200, 5000)
 	var mu sync.Mutex
-	var evals, snapshots, snapSteps, injected, concurrentRuns, alternations, baselineSteps int64
+	var evals, snapshots, snapSteps, injected, concurrentRuns, alternations, baselineSteps, swapRuns, faultRuns int64
 	distinct := mon.NewDistinct(4_000_000)
 	gcounts := map[int]int64{}
 
@@ -262,11 +299,24 @@ func runC10(c *Ctx) {
 			c.R.Violation("C10/determinism", map[string]interface{}{"what": bad, "program": pi, "code": HexBytes(cs.P.Code)})
 			return
 		}
+		// (a2) the same run with the memory object replaced by an equal one every 29 Steps
+		d3 := cs.runDigestsSwapping(29)
+		for i := range d3 {
+			if i >= len(base[pi]) || d3[i] != base[pi][i] {
+				c.R.Violation("C10/memory-object-swapped", map[string]interface{}{
+					"what":    fmt.Sprintf("the run diverges at Step %d when the host replaces CPU.Memory by another object holding the same bytes every 29 Steps (something remembers the old object)", i+1),
+					"program": pi, "code": HexBytes(cs.P.Code)})
+				return
+			}
+		}
+		mu.Lock()
+		swapRuns++
+		mu.Unlock()
 		// (b) snapshots
 		master := cs.boot()
 		n := len(base[pi])
 		r := mon.NewRng(mon.Hash(uint64(c.Seed), uint64(pi), 0xC10B))
-		var ls, lst, linj int64
+		var ls, lst, linj, lfault int64
 		bufO, bufR := &c10Machine{mem: &mon.Mem{}}, &c10Machine{mem: &mon.Mem{}}
 		for k := 0; k < n; k++ {
 			// at boundary k: rebuilt from public state vs value copy of the original
@@ -311,6 +361,60 @@ func runC10(c *Ctx) {
 				}
 				ls++
 			}
+			// every 5th boundary: a device callback panics in the middle of the next Step, the
+			// host recovers and carries on with the same CPU object; a CPU built from the
+			// public state at that moment must stay equal to it step for step
+			if k%5 == 2 {
+				orig := cs.rebuild(master, true, bufO)
+				inner := orig.mem.Hook
+				at := orig.mem.Count + uint64(1+r.Intn(3))
+				orig.mem.Hook = func(m *mon.Mem, a mon.Access) {
+					if m.Count == at {
+						panic(c10Fault{})
+					}
+					if inner != nil {
+						inner(m, a)
+					}
+				}
+				faulted := false
+				func() {
+					defer func() {
+						if p := recover(); p != nil {
+							if _, ok := p.(c10Fault); !ok {
+								panic(p)
+							}
+							faulted = true
+						}
+					}()
+					orig.cpu.Step()
+				}()
+				orig.mem.Hook = inner
+				if faulted && orig.cpu.Memory != z80.Memory(orig.mem) {
+					// The panic unwound a mode-0 acceptance, which swaps CPU.Memory for its overlay
+					// while the supplied instruction executes and (on this tree) does not restore it
+					// when unwound.  CPU.Memory is a public field the host owns: a host that recovers
+					// re-attaches its memory, and so does the monitor (observation recorded in
+					// DESIGN §19; no property speaks about it).
+					orig.cpu.Memory = orig.mem
+					reattached.Add(1)
+				}
+				if faulted {
+					rb := cs.rebuild(orig, false, bufR)
+					for s := 0; s < 30; s++ {
+						ho := orig.stepDigest(0)
+						hr := rb.stepDigest(0)
+						lst++
+						if ho != hr {
+							c.R.Violation("C10/after-recovered-device-panic", map[string]interface{}{
+								"what":    fmt.Sprintf("a device callback panicked during the Step after boundary %d and the host recovered; %d Steps later the CPU differs from one built from its public state and memory at the moment of recovery", k, s+1),
+								"program": pi, "snapshot_step": k, "code": HexBytes(cs.P.Code),
+								"original": DumpState(&orig.cpu.States, orig.cpu.HALT), "rebuilt": DumpState(&rb.cpu.States, rb.cpu.HALT)})
+							return
+						}
+					}
+					lfault++
+				}
+			}
 			distinct.Add(mon.Hash(uint64(pi), uint64(k)))
 			master.stepDigest(0)
 		}
@@ -318,6 +422,7 @@ func runC10(c *Ctx) {
 		snapshots += ls
 		snapSteps += lst
 		injected += linj
+		faultRuns += lfault
 		evals += ls
 		mu.Unlock()
 		if pi < 3 {
@@ -564,6 +669,9 @@ func runC10(c *Ctx) {
 			"what": "a request object built once by the host through the public constructors and re-assigned at every firing was modified behind the host's back (state outside States and memory that outlives the acceptance): " + k.(string)})
 		return true
 	})
+	c.R.Set("runs_with_the_memory_object_replaced", swapRuns)
+	c.R.Set("recovered_device_panics_continued", faultRuns)
+	c.R.Set("recovered_panics_where_the_host_had_to_reattach_its_memory", reattached.Load())
 	c.R.Set("evaluations", evals)
 	c.R.Set("distinct_nontrivial", distinct.N())
 	c.R.Set("programs", int64(nprog))
@@ -576,6 +684,6 @@ func runC10(c *Ctx) {
 	c.R.Set("goroutine_counts", map[string]int64{"2": gcounts[2], "4": gcounts[4], "8": gcounts[8], "16": gcounts[16]})
 	c.R.Set("alternating_pairs", alternations)
 	c.R.Set("exhaustive", false)
-	c.R.Set("rule", "generated programs over all instruction classes incl. prefixes, block repeats, undefined DD/FD/ED sequences and NMI/INT (all modes) raised by bus callbacks; (a) two runs from equal state compared per Step by digests of States+pending request+bus/port traffic; (b) at EVERY Step boundary k a CPU rebuilt from copies of States, the memory image, the device state and the pending request is run against a value copy of the original CPU (which keeps any hidden per-instance state), for 40 Steps (to the end from every 8th point), once as is and once with a fresh request injected at that boundary on both; (c) rounds of 2/4/8/16 goroutines each driving its own CPU behind a barrier, digests compared with the sequential baseline; (d) pairs of different programs stepped alternately; (e) each program also on z80.DumbMemory, a fully populated z80.MapMemory and tinycpm.Memory handed to the CPU directly: per-Step state digests and the final image must equal the run on the monitor memory, plus single Steps of all 930 encodings from boundary-biased states (pointers and operands at FFFF) on DumbMemory/MapMemory directly; the whole binary runs under the Go race detector (halt_on_error=0, reports collected from log_path and attributed to z80 frames). Distinct = distinct (program, snapshot point) + concurrent rounds; every snapshot executes at least one Step")
+	c.R.Set("rule", "generated programs over all instruction classes incl. prefixes, block repeats, undefined DD/FD/ED sequences and NMI/INT (all modes) raised by bus callbacks; (a) two runs from equal state compared per Step by digests of States+pending request+bus/port traffic, and a third in which the host replaces the memory OBJECT by an equal one every 29 Steps (the abandoned object is poisoned); (b) at EVERY Step boundary k a CPU rebuilt from copies of States, the memory image, the device state and the pending request is run against a value copy of the original CPU (which keeps any hidden per-instance state), for 40 Steps (to the end from every 8th point), once as is and once with a fresh request injected at that boundary on both; at every 5th boundary a device callback panics in the middle of the next Step, the host recovers, and the CPU must stay equal to one built from its public state at that moment; (c) rounds of 2/4/8/16 goroutines each driving its own CPU behind a barrier, digests compared with the sequential baseline; (d) pairs of different programs stepped alternately; (e) each program also on z80.DumbMemory, a fully populated z80.MapMemory and tinycpm.Memory handed to the CPU directly: per-Step state digests and the final image must equal the run on the monitor memory, plus single Steps of all 930 encodings from boundary-biased states (pointers and operands at FFFF) on DumbMemory/MapMemory directly; the whole binary runs under the Go race detector (halt_on_error=0, reports collected from log_path and attributed to z80 frames). Distinct = distinct (program, snapshot point) + concurrent rounds; every snapshot executes at least one Step")
 	c.R.Assume("CPU.HALT is not part of the rebuilt state (Step never reads it); R is included in the comparison")
 }
